@@ -20,6 +20,7 @@ func init() {
 }
 
 type parseOutcome struct {
+	Both  bool
 	Ok    bool
 	E     *vx.QTree
 	GB    [][]int
@@ -50,6 +51,8 @@ func parseReal(s string) parseOutcome {
 	var out parseOutcome
 	if p := vx.Safely(func() { q, err = queryparser.ParseQuery(s) }); p != nil {
 		out.Panic = p.Value
+	} else if err != nil && q != nil {
+		out.Both = true // "an error and no query": a rejected input must not hand out a (partial) query as well
 	} else if err == nil && q != nil {
 		out.Ok = true
 		out.E = vx.FromProto(q.Expr)
@@ -141,6 +144,8 @@ func replayParse(args []string) error {
 			bad = "panic"
 		case got.Leak:
 			bad = "goroutine-leak"
+		case got.Both:
+			bad = "error-with-query"
 		case got.Ok != ln.Ok:
 			bad = "verdict"
 		case ln.Ok && (!got.E.Equal(ln.E) || !eqGB(got.GB, ln.GB)):
@@ -291,7 +296,7 @@ func emitParse(w *vx.NDWriter, s string) {
 		return
 	}
 	got := parseReal(s)
-	ev := map[string]any{"ev": "Parse", "s": vx.BytesOf(s), "ok": got.Ok, "leak": got.Leak, "panic": got.Panic != ""}
+	ev := map[string]any{"ev": "Parse", "s": vx.BytesOf(s), "ok": got.Ok, "both": got.Both, "leak": got.Leak, "panic": got.Panic != ""}
 	if got.Ok {
 		ev["e"] = got.E
 		ev["gb"] = got.GB
